@@ -224,5 +224,4 @@ package interceptor
 //@   pure match
 //@   ensures @skip_only_where_handled: result0 == visit.Skip ==>
 //@        (vwp.Value.Kind() == reflect.Ptr && vwp.Value.IsNil()) || res1(getParentFieldType(vwp)) == visit.Skip
-//@   ensures @container_translated_once: result0 == visit.Continue && result1 == nil && typeis(vwp.Value.Interface(), "*common.SearchAttributes") &&
-//@        searchAttributeFieldNames[res0(getParentFieldType(vwp)).Name] && !dataBlobFieldNames[res0(getParentFieldType(vwp)).Name] ==> !searchAttributeFieldNames["IndexedFields"]
+//@   ensures @container_translated_once: typeis(vwp.Value.Interface(), "*common.SearchAttributes") && result0 == visit.Continue ==> !searchAttributeFieldNames["IndexedFields"]
